@@ -50,8 +50,11 @@ func DriveVal(out io.Writer, seed int64, runs, length int) (map[string]int, erro
 				var gv []any
 				for j := 0; j < n; j++ {
 					p := int64(1)
-					if r.Intn(6) == 0 {
+					switch r.Intn(8) {
+					case 0:
 						p = 0
+					case 1:
+						p = int64(2 + r.Intn(5))
 					}
 					gv = append(gv, M{"op": ops[j], "key": keys[j], "power": p})
 				}
